@@ -1,9 +1,10 @@
 """Property -> units, level, assumptions.  Kept in step with MANIFEST.json by bin/gen_manifest.py."""
 
 PROPS = {
-    "C03": {
-        "units": ["entry"],
-        "level": "proof",
-        "assumptions": [],
-    },
+    "C01": {"units": ["procs"], "level": "proof", "assumptions": []},
+    "C03": {"units": ["procs"], "level": "proof", "assumptions": []},
+    "C05": {"units": ["procs"], "level": "proof", "assumptions": []},
+    "C07": {"units": ["procs"], "level": "proof", "assumptions": []},
+    "C08": {"units": ["procs"], "level": "proof", "assumptions": []},
+    "C17": {"units": ["procs"], "level": "proof", "assumptions": []},
 }
